@@ -29,6 +29,9 @@ Policy(name) ==
     [] name = "based-on-source" -> [mc |-> FALSE, lc |-> FALSE, ac |-> FALSE, eq |-> "none"]
     [] name = "except-in-equations" -> [mc |-> TRUE, lc |-> TRUE, ac |-> TRUE, eq |-> "based-on-source"]
     [] name = "true" -> [mc |-> TRUE, lc |-> TRUE, ac |-> TRUE, eq |-> "true"]
+    \* dictionary-valued policies: keys that are not given are False / None
+    [] name = "dict-mc" -> [mc |-> TRUE, lc |-> FALSE, ac |-> FALSE, eq |-> "none"]
+    [] name = "dict-lc-ac-eq" -> [mc |-> FALSE, lc |-> TRUE, ac |-> TRUE, eq |-> "macros"]
 EqPolicy(pol) == IF pol.eq = "none" THEN pol ELSE Policy(pol.eq)
 
 RECURSIVE LStrip(_)
